@@ -37,6 +37,11 @@ def queries(tier):
                         unwind_rules=[("nni_url_parse_inline_inner", r"nni_schemes\[i\]", 40), ("nni_url_default_port", r"nni_url_default_ports\[i\]", 16),
                                       ("harness", r"nni_schemes\[i\]", 40)],
                         timeout=900, mem_gb=5, params={"template": pre + "<%d symbolic bytes>" % n + post}))
+    for tail in (tuple(range(121, 133)) if tier == "quick" else tuple(range(110, 150))):
+        qs.append(Query("boundary-tail%d" % tail, "c19/boundary.c", tus=["core/strs.c", "platform/posix/posix_resolv_gai.c"], env=ENV,
+                        defs={"TAIL": tail, "NSYM": 0}, unwind=tail + 30, timeout=600, mem_gb=8, concrete=True,
+                        unwind_rules=[("nni_url_parse_inline_inner", r"nni_schemes\[i\]", 40), ("nni_url_default_port", r"nni_url_default_ports\[i\]", 16)],
+                        params={"url": "http://h/aaa... (concrete)", "bytes_after_scheme": tail, "inline_buffer": 128}))
     for lng in (0, 1):
         qs.append(Query("clone-%s" % ("long" if lng else "short"), "c19/clone.c", tus=["core/strs.c", "platform/posix/posix_resolv_gai.c"],
                         env=ENV, defs={"LONG": lng, "NSYM": 2}, unwind=190, timeout=600, mem_gb=8,
